@@ -9,6 +9,7 @@ import (
 	"unicode/utf8"
 
 	"verif/internal/core"
+	"verif/internal/crash"
 )
 
 func init() { Registry["C17"] = runC17 }
@@ -359,10 +360,12 @@ func runC17(env *core.Env) {
 			}
 		})
 	}
+	stdinCov := c17StdinFaults(env, base, target)
 	validated := conf.run(env)
 	env.Finish("model_checking", map[string]interface{}{
-		"clock_cases": clockCases,
-		"states":      len(texts), "transitions": evals, "traces_validated_against_impl": validated, "samples": samples.list,
+		"stdin_fault_phase": stdinCov,
+		"clock_cases":       clockCases,
+		"states":            len(texts), "transitions": evals, "traces_validated_against_impl": validated, "samples": samples.list,
 		"evaluations": evals, "distinct_nontrivial": classes.len(), "exhaustive": env.TimeLeft(),
 		"rule":  fmt.Sprintf("all strings of length 1-%d over a %d-symbol alphabet (one symbol per transformation: quotes, backslash, control chars, NUL, HTML chars, NEL/NBSP/LS/PS (trimmed by TrimSpace), BOM, combining mark, multi-byte, astral, U+FFFD/U+FFFF) plus 20 long texts (64 KiB boundaries, 128 KiB, 300 KB; plain, 3-byte runes, alternating space / newline) x {title, body} x {new task, new epic, set, plan epic, plan task} x {JSON stdin, flags, --body-stdin}; each read back by show --json directly and after compact; distinct = (field, path, mode, accepted?)", map[bool]int{false: 2, true: 3}[env.Thorough()], len(c17Alphabet)),
 		"texts": len(texts), "cases": len(cases), "accepted": accepted, "rejected": rejected, "not_expressible": skipped, "outcome_classes": classes.snapshot(),
@@ -387,4 +390,135 @@ func firstDiffAt(a, b string) int {
 func jsonEsc(s string) string {
 	b, _ := json.Marshal(s)
 	return string(b[1 : len(b)-1])
+}
+
+// c17StdinFaults: the text arrives on standard input in three chunks through a named pipe and the k-th read(2) on it
+// fails with EIO (k = 1..4; strace injection on the production binary). A command that still exits 0 must have stored
+// the whole text; one that fails must have stored nothing.
+func c17StdinFaults(env *core.Env, base core.Store, target string) map[string]interface{} {
+	body := "first chunk of the body\n" + strings.Repeat("second chunk ", 40) + "\nthird and last chunk\n"
+	chunks := [][]byte{[]byte(body[:24]), []byte(body[24 : 24+300]), []byte(body[24+300:])}
+	doc := jsonStr(map[string]string{"title": "from json", "body": body})
+	jchunks := [][]byte{[]byte(doc[:20]), []byte(doc[20:200]), []byte(doc[200:])}
+	type cs struct {
+		name   string
+		args   []string
+		chunks [][]byte
+		show   string // id to read back ("" = the id in the reply)
+	}
+	cases := []cs{
+		{"new-task/bodystdin", []string{"--json", "new", "task", "--title", "fixed", "--body-stdin"}, chunks, ""},
+		{"new-epic/bodystdin", []string{"--json", "new", "epic", "--title", "fixed", "--body-stdin"}, chunks, ""},
+		{"set/bodystdin", []string{"--json", "set", target, "--body-stdin"}, chunks, target},
+		{"new-task/json", []string{"--json", "new", "task"}, jchunks, ""},
+		{"set/json", []string{"--json", "set", target}, jchunks, target},
+	}
+	type job struct {
+		c cs
+		k int
+	}
+	var jobs []job
+	for _, c := range cases {
+		for k := 1; k <= 4; k++ {
+			jobs = append(jobs, job{c, k})
+		}
+	}
+	var runs, injectedRuns, failed, okRuns int64
+	env.Parallel(len(jobs), func(w *core.Worker, i int) {
+		j := jobs[i]
+		_, scratch := crashWorkdir(w)
+		once := func() (verdict string, detail string) {
+			base.Materialize(w.Proj)
+			exit, out, errOut, injected, err := crash.RunStdinFault(env.Prod, w.Proj, j.c.args, j.c.chunks, j.k, "EIO", scratch)
+			if err != nil {
+				env.HarnessError("stdin fault run: %v", err)
+			}
+			if !injected {
+				return "not-injected", ""
+			}
+			after, _ := core.Snapshot(w.Proj)
+			if exit != 0 {
+				if string(after.Log()) != string(base.Log()) {
+					return "failed-but-written", fmt.Sprintf("exit %d (%s) but the log changed", exit, clipS(string(errOut), 100))
+				}
+				return "failed", ""
+			}
+			id := j.c.show
+			if id == "" {
+				var m map[string]interface{}
+				json.Unmarshal(out, &m)
+				id = str(m, "id")
+			}
+			sh, perr := core.ParseShow(w.Spawn(core.R(w.Proj, "--json", "show", id)).Out)
+			if perr != nil || sh.Body != body {
+				return "accepted-with-altered-text", fmt.Sprintf("exit 0, stored body has %d bytes, the input had %d", len(sh.Body), len(body))
+			}
+			return "ok", ""
+		}
+		v, d := once()
+		atomic.AddInt64(&runs, 1)
+		switch v {
+		case "not-injected":
+			return
+		case "failed":
+			atomic.AddInt64(&injectedRuns, 1)
+			atomic.AddInt64(&failed, 1)
+			return
+		case "ok":
+			atomic.AddInt64(&injectedRuns, 1)
+			atomic.AddInt64(&okRuns, 1)
+			return
+		}
+		atomic.AddInt64(&injectedRuns, 1)
+		sig := fmt.Sprintf("C17 kind=stdin-read-error-%s via=%s", v, j.c.name)
+		if env.ViolationSeen(sig) {
+			return
+		}
+		for r := 0; r < 4; r++ {
+			if v2, _ := once(); v2 != v {
+				unconfirmed.Add(1)
+				return
+			}
+		}
+		env.Violation(sig, fmt.Sprintf("`ergo %s` with the text arriving in %d chunks and EIO on read %d of standard input: %s", strings.Join(j.c.args, " "), len(j.c.chunks), j.k, d),
+			map[string]interface{}{"kind": "stdin-fault", "store": base, "args": j.c.args, "chunks": j.c.chunks, "k": j.k, "body": body, "show": j.c.show})
+	})
+	return map[string]interface{}{"runs": runs, "runs_with_the_fault_delivered": injectedRuns, "command_failed_cleanly": failed, "command_succeeded_with_whole_text": okRuns,
+		"rule": "5 commands reading text from standard input (3 x --body-stdin, 2 x JSON) x EIO on read 1..4 of a 3-chunk input; exit 0 => the stored body is the whole input, exit non-zero => log unchanged"}
+}
+
+func init() {
+	replayers["stdin-fault"] = func(env *core.Env, raw json.RawMessage) bool {
+		var a struct {
+			Store  map[string][]byte `json:"store"`
+			Args   []string          `json:"args"`
+			Chunks [][]byte          `json:"chunks"`
+			K      int               `json:"k"`
+			Body   string            `json:"body"`
+			Show   string            `json:"show"`
+		}
+		if err := json.Unmarshal(raw, &a); err != nil {
+			env.HarnessError("bad stdin-fault replay: %v", err)
+		}
+		w := env.W0()
+		_, scratch := crashWorkdir(w)
+		core.Store(a.Store).Materialize(w.Proj)
+		exit, out, errOut, injected, err := crash.RunStdinFault(env.Prod, w.Proj, a.Args, a.Chunks, a.K, "EIO", scratch)
+		fmt.Printf("  ergo %s with EIO on read %d of stdin: exit=%d injected=%v err=%v stderr=%s\n", strings.Join(a.Args, " "), a.K, exit, injected, err, clipS(string(errOut), 100))
+		if err != nil || !injected {
+			return false
+		}
+		after, _ := core.Snapshot(w.Proj)
+		if exit != 0 {
+			return string(after.Log()) != string(core.Store(a.Store).Log())
+		}
+		id := a.Show
+		if id == "" {
+			var m map[string]interface{}
+			json.Unmarshal(out, &m)
+			id = str(m, "id")
+		}
+		sh, perr := core.ParseShow(w.Spawn(core.R(w.Proj, "--json", "show", id)).Out)
+		return perr != nil || sh.Body != a.Body
+	}
 }
